@@ -353,6 +353,20 @@ def rest_channel(case, res, log, want, ref):
             return
         if not check_series(res, "REST /run", ser, grid, None if case.get("begin_runspecs") else want, eqs):
             return
+        if case.get("begin_runspecs"):
+            # a second /run that only re-parameterises the run specs must report the new grid with the values of the new grid
+            r = w.post("/run", {"scenario_managers": [MGR], "scenarios": [SCN], "equations": list(eqs), "settings": begin_settings(case)})
+            g2 = dec_grid(session_cfg(case))
+            r0 = reference({**case, "step_settings": {}})
+            w0 = {eq: {t: r0[k][eq] for k, t in enumerate(g2)} for eq in eqs}
+            try:
+                node = r.body[MGR][SCN]["equations"]
+                ser2 = {eq: [(float(t), v) for t, v in node[eq].items()] for eq in node}
+            except Exception:
+                res.violate("C09.i-equation-missing", {"channel": "REST /run with run-spec settings", "status": r.status, "body": str(r.text)[:160]})
+                return
+            if not check_series(res, "REST /run with run-spec settings after an earlier /run", ser2, g2, w0, eqs):
+                return
         r = w.post("/start-instance", {"timeout": {"hours": 1}})
         iid = r.body["instance_uuid"]
         body = {"scenario_managers": [MGR], "scenarios": [SCN], "equations": list(eqs)}
